@@ -693,3 +693,26 @@ Proof.
   intros x Hx [Hx'|[]]. subst x. unfold applicable in Happ. apply negb_true_iff in Happ.
   apply orb_false_iff in Happ as [_ Hin]. apply in_rung_In in Hx. congruence.
 Qed.
+
+(* on_trial_complete records the final result by the same rule as a report and changes nothing else;
+   in particular it does not depend on the priority function or on rf *)
+Lemma moasha_complete_spec prio rf t it m b :
+  (forallb (fun r => negb (applicable t it r)) b = true /\ moasha_on_trial_complete prio rf b t it m = b)
+  \/
+  (exists pre r post, b = pre ++ r :: post /\
+     forallb (fun r => negb (applicable t it r)) pre = true /\ applicable t it r = true /\
+     moasha_on_trial_complete prio rf b t it m = pre ++ rung_add r t m :: post).
+Proof.
+  unfold moasha_on_trial_complete.
+  destruct (bracket_on_result_spec prio rf t it m b) as [[Hn Heq]|[pre [r [post [Hb [Hpre [Happ Heq]]]]]]].
+  - left. split; [exact Hn | rewrite Heq; reflexivity].
+  - right. exists pre, r, post. repeat split; try assumption. rewrite Heq. reflexivity.
+Qed.
+
+Lemma moasha_complete_same_as_report prio rf max_t t it m b : ~ max_t <= it ->
+  moasha_on_trial_complete prio rf b t it m = fst (moasha_on_trial_result prio rf max_t b t it m).
+Proof.
+  intro H. unfold moasha_on_trial_complete, moasha_on_trial_result.
+  destruct (Qleb max_t it) eqn:E; [|reflexivity].
+  exfalso. apply H. unfold Qleb in E. apply Qle_bool_iff in E. exact E.
+Qed.
